@@ -20,6 +20,8 @@ pub(crate) struct FrequencySketch {
     table_mask: u32,
     table: Box<[u64]>,
     size: u32,
+    #[cfg(mini_moka_verif)]
+    verif_resets: u32,
 }
 
 // A mixture of seeds from FNV-1a, CityHash, and Murmur3. (Taken from Caffeine)
@@ -174,6 +176,10 @@ impl FrequencySketch {
             *entry = (*entry >> 1) & RESET_MASK;
         }
         self.size = (self.size >> 1) - (count >> 2);
+        #[cfg(mini_moka_verif)]
+        {
+            self.verif_resets = self.verif_resets.wrapping_add(1);
+        }
     }
 
     /// Returns the table index for the counter at the specified depth.
@@ -182,6 +188,39 @@ impl FrequencySketch {
         let mut hash = hash.wrapping_add(SEED[i]).wrapping_mul(SEED[i]);
         hash = hash.wrapping_add(hash >> 32);
         (hash & (self.table_mask as u64)) as usize
+    }
+}
+
+// Read-only accessors for verification builds.
+#[cfg(mini_moka_verif)]
+impl FrequencySketch {
+    pub(crate) fn verif_table_len(&self) -> usize {
+        self.table.len()
+    }
+
+    pub(crate) fn verif_sample_size(&self) -> u32 {
+        self.sample_size
+    }
+
+    pub(crate) fn verif_size(&self) -> u32 {
+        self.size
+    }
+
+    pub(crate) fn verif_resets(&self) -> u32 {
+        self.verif_resets
+    }
+
+    /// The four `(table index, counter index)` pairs used for `hash`.
+    pub(crate) fn verif_slots(&self, hash: u64) -> [(usize, u8); 4] {
+        let start = ((hash & 3) << 2) as u8;
+        let mut slots = [(0usize, 0u8); 4];
+        if self.table.is_empty() {
+            return slots;
+        }
+        for i in 0..4u8 {
+            slots[i as usize] = (self.index_of(hash, i), start + i);
+        }
+        slots
     }
 }
 
